@@ -125,7 +125,9 @@ def build_program(shape: str, pattern: str, deps: tuple, extras: str, pos: str =
             steps: list = [("td", f"td:{p}:{phase}")]
             gets = [("get", "RA", resname(pp, pph), api, certainly_before(spec, wp, wph, pp, pph) and pub == "res" and pos == "opt", f"{wp}:{wph}<-{pp}:{pph}")
                     for (wp, wph, pp, pph), api in zip(deps, itertools.cycle(("shortcut", "inject", "method"))) if (wp, wph) == (p, phase)]
-            if pos in ("before", "opt"):
+            if pos == "subfirst" and gets:
+                steps.append(("subblock",))  # the component first enters and leaves a context of its own
+            if pos in ("before", "opt", "subfirst"):
                 steps += gets
             steps.append(("gate", "g"))
             if pos == "after":
@@ -182,8 +184,10 @@ def build_alias(variant: int) -> dict:
     (appears as "n"); its child and its sibling look both up."""
     kn_prepare = [("add", "RA", "default", "kn:prepare"), ("gate", "g")] if variant & 1 else [("gate", "g"), ("add", "RA", "default", "kn:prepare")]
     kn = {"alias": "k/n", "children": [{"alias": "g", "children": [], "prepare": None,
-                                        "start": [("get", "RA", "default", "nowait", False, "g:start<-kn:prepare")]}],
-          "prepare": kn_prepare, "start": [("gate", "g"), ("add", "RA", "default", "kn:start")]}
+                                        "start": [("get", "RA", "default", "nowait", False, "g:start<-kn:prepare"),
+                                                  ("add", "RB", "default", "g:start")]}],  # a plain-alias child: stays "default"
+          "prepare": kn_prepare,
+          "start": [("gate", "g")] + ([("subblock",)] if variant & 1 else []) + [("add", "RA", "default", "kn:start")]}
     w = {"alias": "w", "children": [],
          "prepare": [("get", "RA", "default", "shortcut" if variant & 2 else "inject", False, "w:prepare<-kn:prepare")],
          "start": [("get", "RA", "n", "method", False, "w:start<-kn:start")]}
@@ -250,11 +254,13 @@ class C05(E1Check):
                     depsets += [tuple(p) for p in pairs[::step]]
                 for deps in depsets:
                     for extras in (("plain", "tdres", "svc", "gen", "addc", "subctx") if not deps else ("plain",)):
-                        for pos in (("before", "after", "opt") if deps else ("before",)):
+                        for pos in (("before", "after", "opt", "subfirst") if deps else ("before",)):
                             for pub in (("res", "sync", "async", "union", "falsy") if len(deps) == 1 else ("res",)):
                                 if pattern == "inherited" and (pub != "res" or pos != "before"):
                                     continue
                                 if pos == "opt" and (pub != "res" or not all(certainly_before(SHAPES[shape], *d) for d in deps)):
+                                    continue
+                                if pos == "subfirst" and (pub != "res" or len(deps) != 1):
                                     continue
                                 p = build_program(shape, pattern, deps, extras, pos, pub)
                                 if p is not None:
@@ -298,6 +304,7 @@ class C05(E1Check):
                 env.log("start-exc", type(e).__name__, str(e)[:200])
                 st["exc"] = e
             st["visible"] = {n: lab(v) for n, v in ctx.get_resources(RA).items()}
+            st["visible_b"] = {n: lab(v) for n, v in ctx.get_resources(RB).items()}
             env.log("leaving")
         env.log("ctx-left")
         self.oracle(env, program, tree, qpoints, st)
@@ -336,6 +343,8 @@ class C05(E1Check):
             exp_vis = {"default": "kn:prepare", "n": "kn:start"}
             if st.get("visible") != exp_vis:
                 fail("ownership", f"resources visible in the surrounding context {st.get('visible')}, expected {exp_vis}")
+            if st.get("visible_b") != {"default": "g:start"}:
+                fail("ownership", f"RB resources visible in the surrounding context {st.get('visible_b')}, expected {{'default': 'g:start'}}")
             gets = {ev[1]: ev[2] for ev in tr if ev[0] == "get-"}
             for tag in ("g:start<-kn:prepare", "w:prepare<-kn:prepare", "w:start<-kn:start"):
                 want = tag.split("<-")[1]
